@@ -28,6 +28,18 @@ def regenerate_ber():
     return info
 
 
+def regenerate_routes():
+    ok, log = common.go_build(["routeprobe"])
+    if not ok:
+        raise RuntimeError(log[-3000:])
+    d = os.path.join(common.WORK, "genroutes")
+    os.makedirs(d, exist_ok=True)
+    rc, out = sh([os.path.join(HARNESS, "bin", "routeprobe"), d, os.path.join(COQ, "Router/RoutesGen.v")], timeout=600)
+    if rc != 0:
+        raise RuntimeError("routeprobe failed:\n" + out[-3000:])
+    return out.strip()
+
+
 def regenerate_all():
-    info = {"ber": regenerate_ber()}
+    info = {"ber": regenerate_ber(), "routes": regenerate_routes()}
     return info
